@@ -4,7 +4,8 @@ import random
 RULE = ("each case runs a structure (repository proteins, cut-outs centred on a titratable residue, "
         "chimeras) twice in the same process: with the non-covalent coupling analysis enabled and "
         "with it disabled (NCCG.do_prot_stat=False); records must be equal apart from the coupled "
-        "lists. Contract around every is_coupled_protonation_state_probability call: determinant "
+        "lists; the search is also called directly on every finished conformation (default arguments) and "
+        "must change nothing. Contract around every is_coupled_protonation_state_probability call: determinant "
         "multisets (type, partner, label, value) and pKa of both groups are identical at exit; the "
         "contract counts how many calls really executed a swap. Symmetry of the coupled lists and "
         "star <=> partner are read from the live groups of every conformation. Non-trivial: >= 1 "
